@@ -1794,6 +1794,13 @@ class BADS:
                 is_search_improved = sto_success == 1
                 is_search_success = is_search_improved
 
+        if u_search_set.size == 0:
+            # Nothing was evaluated: an empty search set is never an improvement
+            # (with improvement_quantile > 0.5 the incumbent's own uncertainty
+            # would otherwise count as one)
+            is_search_improved = False
+            is_search_success = False
+
         # A search improvement implies an update of the incumbent
         if is_search_improved:
             if self.options["acq_hedge"]:
